@@ -1,2 +1,3 @@
+pub mod ast;
 pub mod text;
 pub mod typed;
